@@ -230,6 +230,11 @@ def _meta_check(cache, prov, op, before, mb):
 def _run(case):
     prov = _provider(case["cfg"]["case_sensitive"])
     cache = HierarchicalCache(prov, "root", metadata_template=META_TEMPLATE)
+    if cache._root.metadata:
+        # isolation between cases: a metadata dict shared between nodes (and so between cache objects) would carry one case's writes into the
+        # next case of the same worker process, and such a violation would not replay in a fresh interpreter.  Emptying it in place restores
+        # 'one case = one execution'; the write that polluted it is reported in the case that makes it (non-interference, root included)
+        cache._root.metadata.clear()
     nodes = 0
     for i, op in enumerate(case["plan"]):
         try:
